@@ -61,7 +61,6 @@ func OverlappingTemplateMatchingProto(bits []bool, m int) (p1 float64, p2 float6
 	patterns1 := make([]int, 1<<uint(m))
 	patterns2 := make([]int, 1<<uint(m-1))
 	patterns3 := make([]int, 1<<uint(m-2))
-	var Phi1, Phi2, Phi3 float64 = 0, 0, 0
 	var DPhi2, D2Phi2 float64 = 0, 0
 
 	var mask1 int = (1 << uint(m)) - 1
@@ -84,29 +83,25 @@ func OverlappingTemplateMatchingProto(bits []bool, m int) (p1 float64, p2 float6
 		patterns3[tmp&mask3]++
 	}
 
-	// Step 3
+	// Step 3: Σc² 用整数精确累加
+	var S1, S2, S3 int = 0, 0, 0
 	for i := 0; i <= mask1; i++ {
-		Phi1 += float64(patterns1[i]) * float64(patterns1[i])
+		S1 += patterns1[i] * patterns1[i]
 	}
-	Phi1 *= float64(mask1 + 1)
-	Phi1 /= float64(n)
-	Phi1 -= float64(n)
+	S1 *= mask1 + 1
 	for i := 0; i <= mask2; i++ {
-		Phi2 += float64(patterns2[i]) * float64(patterns2[i])
+		S2 += patterns2[i] * patterns2[i]
 	}
-	Phi2 *= float64(mask2 + 1)
-	Phi2 /= float64(n)
-	Phi2 -= float64(n)
+	S2 *= mask2 + 1
 	for i := 0; i <= mask3; i++ {
-		Phi3 += float64(patterns3[i]) * float64(patterns3[i])
+		S3 += patterns3[i] * patterns3[i]
 	}
-	Phi3 *= float64(mask3 + 1)
-	Phi3 /= float64(n)
-	Phi3 -= float64(n)
+	S3 *= mask3 + 1
 
-	// Step 4
-	DPhi2 = Phi1 - Phi2
-	D2Phi2 = Phi1 - 2*Phi2 + Phi3
+	// Step 4: ψ² 的差分在除以 n 之前先做整数相减（各项中的 -n 相互抵消），
+	// 避免相近浮点数相减的舍入噪声经 igamc(a, x→0) 放大（m=2 时 P2 偏差可达 1e-7）
+	DPhi2 = float64(S1-S2) / float64(n)
+	D2Phi2 = float64(S1-2*S2+S3) / float64(n)
 
 	// Step 5
 	p1 = igamc(float64(len(patterns3)), DPhi2/2.0)
